@@ -166,4 +166,4 @@ mod tests {
 
 /// verification hook (compiled only under `cargo kani` or `--cfg reactive_mutiny_verif`): harnesses live outside this repository
 #[cfg(any(kani, reactive_mutiny_verif))]
-mod verif_hooks { include!(concat!(env!("REACTIVE_MUTINY_VERIF_DIR"), "/kani/non_blocking_parking_lot_stack.rs")); }
+pub(crate) mod verif_hooks { include!(concat!(env!("REACTIVE_MUTINY_VERIF_DIR"), "/kani/non_blocking_parking_lot_stack.rs")); }
